@@ -150,11 +150,14 @@ def run_spec(spec):
     return None
 
 
+MIN_CASES = 2500  # a loaded machine does not shrink what is explored (time cap: 10x the budget)
+
+
 def run(limit_s, seed):
     rng = random.Random(seed)
     t0 = time.time()
     n = skipped = 0
-    while time.time() - t0 < limit_s:
+    while time.time() - t0 < limit_s or (n < MIN_CASES and time.time() - t0 < 10 * limit_s):
         spec = gen_spec(rng)
         r = run_spec(spec)
         if r == "skip":
